@@ -69,8 +69,13 @@ def run_convs(pid, convs, rep, keys=("wire", "cbs", "closed", "rets"), monitors=
     if confirm and kinds is None and (diffs or monitor_hits):
         # a real-time scenario that fails is run again on its own: scheduling noise does not repeat, a defect does.
         # Only what fails again (same scenario, same clause) is reported; the rest is counted in the evidence.
-        suspects = sorted(set([x[-1] for x in diffs] + [x[-1] for x in monitor_hits]))[:24]
-        again_d, again_h = set(), set()
+        # identical scenarios that are repeated on purpose (a random select decides which branch runs): the same clause
+        # failing in two or more independent instances of one class is already a reproduction
+        cls = collections.Counter((json.dumps(scs[x[-1]]["steps"]), key_of(x[1])) for x in monitor_hits)
+        pre_h = set((x[-1], key_of(x[1])) for x in monitor_hits if cls[(json.dumps(scs[x[-1]]["steps"]), key_of(x[1]))] >= 2)
+        need = [x[-1] for x in diffs] + [x[-1] for x in monitor_hits if (x[-1], key_of(x[1])) not in pre_h]
+        suspects = sorted(set(need))[:24]
+        again_d, again_h = set(), set(pre_h)
         for _ in range(confirm):
             rr, _, cr2 = S.run_sys([scs[i] for i in suspects], par=1)
             d2, h2 = evaluate([(i, convs[i], exp[i], r) for i, r in zip(suspects, rr)])
